@@ -14,7 +14,7 @@ from hypergraph.graph.validation import GraphConfigError  # noqa: E402
 
 FLAWS = ["unknown_target", "unknown_target_multi", "dup_producer", "dup_node", "bad_node_name", "bad_output_name", "bad_graph_name",
          "inconsistent_default", "wait_for_unknown", "edge_unknown_node", "edge_unknown_value", "type_mismatch", "missing_annotation",
-         "gate_self_target", "dup_producer_two_names", "dup_producer_two_gates"]
+         "gate_self_target", "dup_producer_two_names", "dup_producer_two_gates", "bad_graph_output_name"]
 
 
 def typed_chain(rng: random.Random) -> dict:
@@ -32,6 +32,11 @@ def typed_chain(rng: random.Random) -> dict:
                     "ann": {"pp": in_t, "return": "str"}}
         nodes[2] = {"name": "c", "kind": "fn", "params": [["y", None], ["q", {"d": 1}]], "inRen": [["y", "q"], ["q", "y"]], "dataOuts": ["r"],
                     "body": {"b": "tag", "t": "c"}, "ann": {"y": "str", "q": "int", "return": "str"}}
+    w = rng.random()
+    if w < 0.2:
+        nodes[0]["emits"] = ["a_done"]; nodes[2]["waitFor"] = ["a_done"]            # ordering by a signal: nothing to type  # noqa: E702
+    elif w < 0.4:
+        nodes[2]["waitFor"] = ["p"]                                                 # waiting for a DATA name without consuming it
     if rng.random() < 0.4:
         # the producer `a` (and a sibling producing a str) live in a nested graph whose wrapper renames its outputs (rename / swap):
         # the declared type of each port must follow the rename
@@ -43,6 +48,13 @@ def typed_chain(rng: random.Random) -> dict:
         b = nodes[1]
         bp = b["params"][0][0]
         b["inRen"] = [[bp, carrier]] if bp != carrier else []
+        # ordering inside the chain must follow the wrapping: wait for the name that now carries a's value; a signal emitted inside the
+        # nested graph does not cross the boundary (known finding C05-F1), so that variant stays flat
+        a.pop("emits", None)
+        if nodes[2].get("waitFor") == ["a_done"]:
+            nodes[2].pop("waitFor")
+        elif nodes[2].get("waitFor") == ["p"]:
+            nodes[2]["waitFor"] = [carrier]
         inner = {"name": "inner", "nodes": [a, a2], "bound": []}
         wrapper = {"name": "w", "kind": "graph", "inner": 0, "inRen": [], "outRen": out_ren}
         return {"program": [inner, {"name": "g1", "nodes": [wrapper, b, nodes[2]], "bound": [], "strict": True}], "values": [["x", 1]]}
@@ -162,8 +174,23 @@ def inject(rng: random.Random, program: list[dict], flaw: str, gi: int) -> list[
         for gt in gates:
             gt["targets"] = [new if t == old["name"] else t for t in gt["targets"]]
         old["name"] = new
-    elif flaw == "bad_output_name":
+    elif flaw in ("bad_output_name", "bad_graph_output_name"):
         c = [n for n in fns if n.get("dataOuts")]
+        gns = [n for n in nodes if n["kind"] == "graph"]
+        if flaw == "bad_graph_output_name" and not gns:
+            return None
+        if gns and (flaw == "bad_graph_output_name" or rng.random() < 0.5):
+            # a nested-graph node exposing an inner output under an illegal name (its own NAME is exempt, its outputs are not)
+            gn = rng.choice(gns)
+            inner_outs = [o for m in p[gn["inner"]]["nodes"] for o in m.get("dataOuts", [])]
+            ren = dict(gn.get("outRen", []))
+            if inner_outs and not p[gn["inner"]].get("selected"):
+                o = rng.choice(inner_outs)
+                ren[o] = rng.choice(["has-dash", "for", "9x"])
+                gn["outRen"] = [[k, v] for k, v in ren.items()]
+                return p
+            if flaw == "bad_graph_output_name":
+                return None
         if not c:
             return None
         rng.choice(c)["dataOuts"][0] = rng.choice(["has-dash", "for", "9x"])
@@ -311,7 +338,7 @@ class C19(Prop):
             order = rng.sample(FLAWS, len(FLAWS))
             if rng.random() < 0.6:
                 # flaw classes that need a particular structure are tried first (the generic ones apply almost everywhere)
-                rare = ["dup_producer_two_gates", "dup_producer_two_names", "inconsistent_default", "type_mismatch", "missing_annotation",
+                rare = ["bad_graph_output_name", "dup_producer_two_gates", "dup_producer_two_names", "inconsistent_default", "type_mismatch", "missing_annotation",
                         "unknown_target_multi", "edge_unknown_node", "edge_unknown_value", "dup_producer", "gate_self_target", "unknown_target"]
                 rng.shuffle(rare)
                 order = rare + [f for f in order if f not in rare]
